@@ -21,7 +21,10 @@ const (
 	fBad0          // bad frames: BadFrame kinds 0..6 follow
 )
 
-const nFaultKinds = fBad0 + 7
+// the program itself closes the Client while calls are in flight
+const fClientClose = fBad0 + 7
+
+const nFaultKinds = fBad0 + 8
 
 func faultName(k int) string {
 	switch k {
@@ -35,6 +38,8 @@ func faultName(k int) string {
 		return "close-between-frames"
 	case fWriteError:
 		return "write-error"
+	case fClientClose:
+		return "client-closed-by-another-goroutine"
 	}
 	_, n := BadFrame(k-fBad0, 1, 8192)
 	return "bad-frame: " + n
@@ -78,6 +83,14 @@ func (cw *cliWorld) inject(k int, r *fsReq) {
 	case k == fWriteError:
 		// armed now; the connection counts as dead once a write has actually failed
 		f.Net.C2S.WriteErrAfter = f.Net.C2S.Writes + simrt.Choose(4)
+	case k == fClientClose:
+		// every pending and every later call returns an error; none hangs
+		cw.dead = true
+		cl := cw.Client
+		simrt.GoNamed("closer", func() {
+			simrt.Current().Role = "caller"
+			cl.Close()
+		})
 	case k >= fBad0:
 		tag := uint16(1)
 		if r != nil {
@@ -337,7 +350,7 @@ func init() {
 		Run:  runC10,
 		Directed: func(string) int { return len(c10Catalogue) },
 		Quick:    48000, Thorough: 4000000, QuickSecs: 60, ThorSecs: 1500,
-		Rule:  fmt.Sprintf("directed: batches of 1-4 concurrent calls x EVERY reply permutation x %d fault kinds (none; reply cut mid-frame then EOF; read error; EOF between frames; client write error; bad frames: short body, unknown tag, wrong reply type, size<7, size>msize, unknown type, Rread count>payload) injected at the middle of the batch; random: 2-32 caller goroutines x 3-16 calls over 26 client operations (incl. fid-allocating Attach/Walk/WalkGetAttr/GetXattr and fid-releasing Close/Remove) on shared and private Files, replies in tape order, server Rlerror rate 0/5/25%%, one fault at a tape-chosen request count, reply stream segmented whole/random/bytewise. Oracles: on the wire — outstanding tags pairwise distinct and not NOTAG, a fid-binding request never names NOFID nor a fid the server still has bound or is binding; per call — returned values equal the nonce-derived reply generated FOR THAT REQUEST, or its errno; after a break every pending and later call fails, after a bad frame the pending ones fail; no call hangs (quiescence with an unfinished caller).", nFaultKinds),
+		Rule:  fmt.Sprintf("directed: batches of 1-4 concurrent calls x EVERY reply permutation x %d fault kinds (none; reply cut mid-frame then EOF; read error; EOF between frames; client write error; Client.Close by another goroutine; bad frames: short body, unknown tag, wrong reply type, size<7, size>msize, unknown type, Rread count>payload) injected at the middle of the batch; random: 2-32 caller goroutines x 3-16 calls over 26 client operations (incl. fid-allocating Attach/Walk/WalkGetAttr/GetXattr and fid-releasing Close/Remove) on shared and private Files, replies in tape order, server Rlerror rate 0/5/25%%, one fault at a tape-chosen request count, reply stream segmented whole/random/bytewise. Oracles: on the wire — outstanding tags pairwise distinct and not NOTAG, a fid-binding request never names NOFID nor a fid the server still has bound or is binding; per call — returned values equal the nonce-derived reply generated FOR THAT REQUEST, or its errno; after a break every pending and later call fails, after a bad frame the pending ones fail; no call hangs (quiescence with an unfinished caller).", nFaultKinds),
 		Assume: []string{"after the fake server has itself violated the protocol, fid recycling is judged no further than 'error, no hang'"},
 		Real:   []string{"p9.Client (tag/fid pools, pending map, recv arbitration)", "p9 client files", "p9 wire codec"},
 		Stub:   []string{"transport (simnet pipes)", "fake 9P server (refcodec)"},
